@@ -103,6 +103,19 @@ def run_extract():
         return True, r.stdout
 
 
+def run_trans():
+    """regenerate lean/XixiKV/Generated/Trans.lean: mechanical Go -> Lean translation of the whitelisted pure functions.
+    On a construct outside its subset the translator writes a stub that does not elaborate, so the equality theorems
+    (Proofs/TransEq.lean and the property theorems that restate them) stop checking."""
+    with FileLock("harness-build"):
+        exe = os.path.join(HARNESS, "bin", "trans")
+        r = subprocess.run(["go", "build", "-o", exe, "./cmd/trans"], cwd=HARNESS, env=GOENV, capture_output=True, text=True)
+        if r.returncode != 0:
+            return False, r.stdout + r.stderr
+        r = subprocess.run([exe, REPO, os.path.join(LEAN, "XixiKV", "Generated", "Trans.lean")], capture_output=True, text=True)
+        return r.returncode == 0, r.stdout + r.stderr
+
+
 def lake_build(targets, timeout=3000):
     with FileLock("lake-build"):
         t0 = time.time()
